@@ -86,7 +86,7 @@ package nut11
 //@   ensures @cashuerr [C20] r0 != nil ==> iscashu(r0) && !internalerr(r0)
 //@   tags C12
 //@   safety C06 C12
-//@   modifies hvs.last, hvs.calls, hvs.fails, clk.now
+//@   modifies hvs.last, hvs.calls, hvs.fails, clk.now, clk.t
 //@   assumes r0 == p2pk.verdict(proof, proofSecret, clk.now)
 //@   calls HasValidSignatures asserts @handed [C12] bytes(hash) == sha256(bytesOf(proof.Secret)) && signatures == p2pkWitness.Signatures && ((expired(p2pkTags) && Nsigs == 1 && pubkeys == p2pkTags.Refund && len(p2pkTags.Refund) > 0) || (!expired(p2pkTags) && Nsigs >= 1 && Nsigs == (p2pkTags.NSigs > 0 ? p2pkTags.NSigs : 1) && len(pubkeys) == 1 + (p2pkTags.NSigs > 0 ? len(p2pkTags.Pubkeys) : 0) && pk.pt(*pubkeys[0]) == pt.parse(hexdec(proofSecret.Data.Data)) && (forall j :: 0 <= j && j < len(pubkeys) - 1 ==> pubkeys[1 + j] == p2pkTags.Pubkeys[j])))
 //@   ensures @accepts [C12] r0 == nil ==> (hvs.calls == old(hvs.calls) + 1 && hvs.last) || (hvs.calls == old(hvs.calls))
